@@ -349,7 +349,8 @@ func IsValidRule(r *Rule) error {
 	if len(r.Resource) == 0 {
 		return errors.New("empty resource name")
 	}
-	if r.MaxEjectionPercent < 0.0 || r.MaxEjectionPercent > 1.0 {
+	if !(r.MaxEjectionPercent >= 0.0 && r.MaxEjectionPercent <= 1.0) {
+		// (written so that NaN, which fails every comparison, is refused as well)
 		return errors.New("invalid MaxEjectionPercent")
 	}
 	return nil
